@@ -17,6 +17,7 @@ import json
 
 from core import Result, call, ddmin
 from gen import g3pairs as G
+from corr import cli_annotator
 
 
 # ------------------------------------------------------------------------------------------------
@@ -327,6 +328,8 @@ def run(ctx):
         res.sample({"family": tag, "residues": len(rs), "model": m,
                     "pairs": real[1][:6] if real[0] == "ok" else real[1]})
     __import__("corr.fn_common", fromlist=["run_fn"]).run_fn(ctx, res, "C03")  # regenerated functions vs the real ones (tools/py2lean.py)
+    # the command-line tool as an observation point (harness/corr/cli_annotator.py)
+    cli_annotator.judge(res, "C03", cli_annotator.evaluate(ctx))
     return res
 
 
@@ -355,6 +358,8 @@ def fails_with(ctx, residues, model, signature):
 
 def shrink(ctx, failure):
     """minimal replay: fewest residues on which the same signature is still observed"""
+    if cli_annotator.is_cli(failure.get("input")):
+        return failure
     inp = failure["input"]
     if "residues" not in inp:
         return failure
@@ -377,6 +382,8 @@ def shrink(ctx, failure):
 
 
 def replay(ctx, data):
+    if cli_annotator.is_cli(data.get("input")):
+        return cli_annotator.replay_cli("C03", data["input"])
     if "input" not in data:
         # an obligation replay: names the theorems / correspondences that no longer check
         print(json.dumps({k: data.get(k) for k in ("no_longer_checks", "correspondence", "note")}, indent=1)[:4000])
